@@ -284,6 +284,8 @@ def eval_listcomp(E, e, st, fx):
         if items is None:
             hook = getattr(E, "comprehension_hook", None)
             res = hook(E, e, r.val, r.st, fx) if hook else None
+            if res is None and isinstance(e, (ast.ListComp, ast.GeneratorExp)):
+                res = map_symbolic(E, e, g, r.val, r.st, fx)
             if res is None:
                 raise OutOfReach("comprehension over symbolic iterable in %s" % fx.qualname)
             out.extend(res)
@@ -371,3 +373,75 @@ def eval_dictcomp(E, e, st, fx):
             cur = E.bind(cur, step)
         out.extend(Ev(c.st, d) if c.exc is None else c for c in cur)
     return out
+
+
+def map_symbolic(E, e, g, it, st, fx):
+    """[elt for x in xs] over an iterable of symbolic length n without a filter: the element expression is executed
+    once on the symbolic element at a fresh index j. If it can raise for some element the comprehension raises;
+    otherwise the result is a list R of length n with  forall j. cond_p(j) => R[j] == value_p(j)  for every path p."""
+    from . import ghost
+    if g.ifs:
+        return None
+    view = _iter_view(E, it, st)
+    if view is None:
+        return None
+    n, item = view
+    j = z3.Int(fresh_name("cj"))
+    base = st.fork()
+    base_len = len(base.pc)
+    base.assume(0 <= j, j < n)
+    it_val = item(j)
+    alts = it_val if isinstance(it_val, list) else [(it_val, [], "elem")]
+    paths = []
+    for v, cons, label in alts:
+        b = base.fork()
+        b.assume(*cons)
+        if not E.feasible(b):
+            continue
+        for a in E.assign(g.target, v, b, fx):
+            if a.exc is not None:
+                paths.append((a.st, None, a.exc))
+                continue
+            for r in E.ev(e.elt, a.st, fx):
+                paths.append((r.st, r.val, r.exc))
+    if not paths:
+        return None
+    jb = z3.Int("mj")
+
+    def cond_of(p_st):
+        extra = p_st.pc[base_len + 1:] if False else p_st.pc[base_len:]
+        return z3.And(extra) if extra else z3.BoolVal(True)
+    outs = []
+    ok_paths = [(s2, v) for s2, v, x in paths if x is None]
+    bad_paths = [(s2, x) for s2, v, x in paths if x is not None]
+    # some element raises
+    for s2, x in bad_paths:
+        r = st.fork()
+        r.assume(*s2.pc[base_len:])          # witness index j with the raising condition
+        r.trace.append("comprehension element raises")
+        if E.feasible(r):
+            outs.append(Ev(r, exc=x))
+    if ok_paths:
+        good = st
+        for s2, x in bad_paths:
+            c = z3.And(s2.pc[base_len:])
+            good.assume(z3.ForAll([jb], z3.Not(z3.substitute(c, (j, jb)))))
+        kinds = {type(v) for _s, v in ok_paths}
+        if kinds == {BytesV}:
+            arr = z3.Const(fresh_name("mapped"), ghost.BARR)
+            for s2, v in ok_paths:
+                c = z3.And(s2.pc[base_len:])
+                good.assume(z3.ForAll([jb], z3.Implies(z3.substitute(c, (j, jb)), arr[jb] == z3.substitute(v.t, (j, jb)))))
+            res = ghost.new_bytesarr(good, arr, n)
+        else:
+            arr = z3.Const(fresh_name("mapped"), ghost.PARR)
+            for s2, v in ok_paths:
+                t = E.inject(v, s2)
+                if t is None:
+                    return None
+                c = z3.And(s2.pc[base_len:])
+                good.assume(z3.ForAll([jb], z3.Implies(z3.substitute(c, (j, jb)), arr[jb] == z3.substitute(t, (j, jb)))))
+            res = ghost.new_pyarr(good, arr, n)
+        good.ghost["last_map"] = {"src": it, "result": res}
+        outs.append(Ev(good, res))
+    return outs
